@@ -50,7 +50,8 @@ def _history():
         'life': st.sampled_from(LIFETIMES),
         'vlat': st.sampled_from(['0', '0', '1ms', 'life-1', 'life', 'life+20']),
         'verdict': st.sampled_from([True, True, False]),
-        'await_after': st.sampled_from([0, 0, 0, 2, 30]), 'shared_param': st.sampled_from([False, False, True])})
+        'await_after': st.sampled_from([0, 0, 0, 2, 30]), 'shared_param': st.sampled_from([False, False, True]),
+        'stock': st.sampled_from([False, False, True])})
     data = st.one_of(
         st.fixed_dictionaries({'op': st.just('data'), 'name': nm, 'mode': st.sampled_from(['await', 'task', 'lp'])}),
         st.fixed_dictionaries({'op': st.just('data'), 'of': st.integers(0, 7), 'ext': st.lists(st.sampled_from(ALPHA[:2]), max_size=1),
@@ -74,12 +75,13 @@ def _templates(express, op):
     """Multi-step skeletons that random histories reach too rarely, with drawn parameters and random ops around them:
     T1  slow validator outlives the lifetime, the same name is expressed again meanwhile, Data arrives again
     T2  partial satisfaction (mixed CanBePrefix / digest on one name), then a second Data
-    T3  cancel, re-express on the same name, late packet"""
+    T3  cancel, re-express on the same name, late packet
+    T4  two Interests on one name, one satisfied by a longer-named Data gives up during its validation, then the other's Data"""
     nm = st.lists(st.sampled_from(ALPHA[:2]), min_size=1, max_size=2)
 
     @st.composite
     def t(draw):
-        which = draw(st.sampled_from(['T1', 'T1', 'T2', 'T3']))
+        which = draw(st.sampled_from(['T1', 'T1', 'T2', 'T3', 'T4']))
         n = draw(nm)
         life = draw(st.sampled_from([5, 50]))
         mode = draw(st.sampled_from(['await', 'task']))
@@ -104,6 +106,20 @@ def _templates(express, op):
                     {'op': 'adv', 'ms': 1},
                     {'op': 'data', 'of': 99, 'ext': draw(st.sampled_from([[], ['a']])), 'mode': mode},
                     {'op': 'data', 'of': 99, 'ext': [], 'mode': mode}]
+        elif which == 'T4':
+            # two Interests on one name; a Data with a longer name satisfies only the CanBePrefix one, which then gives up
+            # (deadline or caller) while its validator still runs; the other one's Data arrives afterwards
+            core = [{'op': 'express', 'name': n, 'cbp': True, 'digest': 'none', 'life': life, 'vlat': 'life+20', 'verdict': True},
+                    {'op': 'express', 'name': n, 'cbp': False, 'digest': 'none', 'life': 4000, 'vlat': '0', 'verdict': True},
+                    {'op': 'data', 'of': 0, 'ext': ['a'], 'mode': mode},
+                    draw(st.sampled_from([{'op': 'adv_to', 'i': 0, 'delta': 1, 'what': 'deadline'}, {'op': 'cancel', 'i': 0}])),
+                    {'op': 'adv', 'ms': draw(st.sampled_from([0, 1, 30]))},
+                    {'op': 'data', 'of': 1, 'ext': [], 'mode': mode},
+                    {'op': 'adv', 'ms': 1}]
+            if draw(st.booleans()):
+                core[0], core[1] = core[1], core[0]
+                core[2]['of'], core[5]['of'] = 1, 0
+                core[3] = dict(core[3], i=1)
         else:
             core = [{'op': 'express', 'name': n, 'cbp': draw(st.booleans()), 'digest': 'none', 'life': 4000, 'vlat': '0', 'verdict': True},
                     {'op': 'cancel', 'i': 99},
@@ -202,7 +218,9 @@ def _run(sim, fe, ops, r):
                             # awaited later, but while the Interest is still alive (a first await after the deadline is
                             # deliberately lenient in the library: "should not be considered as an error")
                             await_after=(op.get('await_after', 0) if op.get('await_after', 0) < op['life'] - 2 else 0) / 1000,
-                            shared_param=op.get('shared_param', False))
+                            shared_param=op.get('shared_param', False),
+                            # an accepting validator without latency may be the stock object the library ships
+                            validator='stock' if op.get('stock') and op['vlat'] == '0' and op['verdict'] else 'default')
             if h.express_error is not None:
                 r.bad(f'C03/{fe}/express-raised/{type(h.express_error).__name__}', repr(h.express_error))
                 return
